@@ -20,10 +20,14 @@
     every timer deadline on the way fires at its own time), [Done id] (the parked run
     of task id returns).
 
-    [loop] is the body of the [case <-s.timer.C:] arm, copied branch by branch,
-    INCLUDING THE SIGN of the re-arm in the "minimum is not due yet" branch:
-    [s.timer.Reset(ts.Sub(it.When()))] = now - when.  [fx = true] flips that sign (the
-    proposed repair); the correspondence judge uses [fx = false].
+    [loop] is the body of the [case <-s.timer.C:] arm, copied branch by branch.  The
+    "minimum is not due yet" branch exists in two versions selected by [fx]:
+    [fx = true] is the code as it is now (repair of finding
+    C24-stale-when-negative-rearm-spin): [s.when = it.When();
+    s.timer.Reset(it.When().Sub(ts))], a positive delay; [fx = false] is the code before
+    the repair, [s.timer.Reset(ts.Sub(it.When()))] = now - when, a NEGATIVE delay, with
+    [s.when] left alone (kept only to record the counterexample).  The correspondence
+    judge and the property theorems use [fx = true].
 
     [process()] is [pass]: ascend over the snapshot of the tree, stop at the first item
     that is not due, hand a due item to worker [wk id] unless that worker is busy
@@ -122,7 +126,8 @@ Section Sched.
             if (now st <? i_when it)%Z then
               (* s.timer.Reset(ts.Sub(it.When())): now - when, a negative delay *)
               let d := if fx then (i_when it - now st)%Z else (now st - i_when it)%Z in
-              (set_idle st (swhen st) (Some (now st + d)%Z) (d <=? 0)%Z,
+              (* repaired code also sets s.when = it.When() in this branch *)
+              (set_idle st (if fx then Some (i_when it) else swhen st) (Some (now st + d)%Z) (d <=? 0)%Z,
                {| o_ex := []; o_rearm := [d] |})
             else
               let '(st1, ex) := pass st in
@@ -358,12 +363,14 @@ Definition ev_ids (evs : list ev) : list N :=
 Definition check (c : case) : verdict :=
   let wk := fun id => tbl_get id id (c_workers c) in
   let pk := fun id => mem id (c_parked c) in
-  let m := trace every_next wk pk false init (c_evs c) in
+  let m := trace every_next wk pk true init (c_evs c) in
   let ids := ev_ids (c_evs c) in
   let same := list_eqb (obs_same ids) (c_obs c) m in
   let ok := spec_full every_next wk pk spec0 (c_evs c) (c_obs c) in
-  (* a failure of the core part (order, once, release, overlap, liveness) is never
-     attributed to the known stale-timer finding: only When()/no-spin failures that the
-     model reproduces get verdict 3 *)
-  let core := spec_core every_next wk pk spec0 (c_evs c) (c_obs c) in
+  (* a failure of the core part (order, once, release, overlap, liveness, NO SPIN) is never
+     attributed to a known finding: only When() mismatches that the model reproduces
+     (When() stale between a Release/re-Schedule of the earliest task and the next timer
+     fire) get verdict 3 *)
+  let core := spec_core every_next wk pk spec0 (c_evs c) (c_obs c)
+              && forallb (fun o => negb (b_neg o)) (c_obs c) in
   judge (same && core) ok.
